@@ -121,6 +121,7 @@ const (
 	ClassQuoting
 	ClassExt
 	ClassPathHostile // not a single valid path element
+	ClassLong        // long names around buffer boundaries (not for filesystem workloads)
 	NumClasses
 )
 
@@ -153,6 +154,10 @@ func NameOf(r *Rand, class int) string {
 		return r.Pick(extNames)
 	case ClassPathHostile:
 		return r.Pick(hostileNames)
+	case ClassLong:
+		n := []int{255, 256, 300, 1023, 1024, 4095, 4096, 4097, 5000, 9000}[r.Intn(10)]
+		unit := []string{"x", "ab", "日", "é-", "w "}[r.Intn(5)]
+		return "L" + strings.Repeat(unit, n/len(unit)) + "E"
 	}
 	return r.Pick(plainNames)
 }
